@@ -288,9 +288,36 @@ def interleaved_cases():
                        "schedule": [[x, k], [1 - x, sched.INF], [x, sched.INF]]}
 
 
+def eval_many(case):
+    """one process, many DISTINCT values in a row (what a long-running service does): every one round-trips"""
+    m = _mod()
+    n0, count, step = int(case["start"]), case["count"], int(case["step"])
+    f = []
+    for i in range(count):
+        n = (n0 + i * step) % LIMIT
+        try:
+            s = m.uuid_to_short_str(_uuid.UUID(int=n))
+            back = m.uuid_from_short_str(s).int
+            back2 = m.uuid_from_str(s).int if i % 7 == 0 else n
+        except Exception as e:   # noqa
+            f.append(("round_trip_raises_%s_after_many_distinct_values" % type(e).__name__, f"value #{i} ({n:#x}): {e}"))
+            break
+        if s != ref_encode(n) or back != n or back2 != n:
+            f.append(("round_trip_wrong_after_many_distinct_values", f"value #{i} ({n:#x}): {s!r} -> {back:#x}"))
+            break
+    return Outcome(True, ["many_distinct_values_in_one_process"], f, key=case, evals=count)
+
+
+def many_cases():
+    yield {"start": str(2 ** 127 + 12345), "count": 70000, "step": str(57 ** 11 + 1)}
+    yield {"start": "0", "count": 70000, "step": "1"}
+
+
 def parts(tier):
     k = 1 if tier == "quick" else 60
     return [
+        Part("many_distinct_values", eval_many, enumerate=many_cases, exhaustive=True,
+             note="70000 distinct values converted one after the other in one process (two runs)"),
         Part("interleaved_calls", eval_interleaved, enumerate=interleaved_cases, exhaustive=True,
              note="two threads converting different values, every single-preemption schedule at opcode granularity"),
         Part("carry_enum", evaluate, enumerate=carry_family, exhaustive=True,
